@@ -9,7 +9,8 @@ FAMS = ["negbern", "nonpos3", "cl_negdist", "bern", "quant5", "neg", "const", "z
         "cl_garland", "cl_step", "cl_sine"]
 RULE = ("Zooming on all 11 partition variants (midpoint splits Bin/DimBin/K2/K4 over-weighted: there the pulled arm "
         "lies exactly on the face between children), d=1..3, all box kinds, nu in [0.3,30], rho in [0.4,0.95] so that "
-        "refinements occur; after construction and after every round: every arm inside its cell, every leaf covered "
+        "refinements occur, plus 6 (40) long runs of 4 100 - 8 400 (16 600) rounds that reach the phase ends 2046 / 4094 / 8190 (16382); "
+        "after construction and after every round: every arm inside its cell, every leaf covered "
         "by an active cell; every pull: max index from ledger + reference phase schedule; every round: refinement "
         "decision and the arms of the children; non-trivial = >= 50 rounds and >= 2 refinements seen")
 ASSUMPTIONS = [
@@ -25,6 +26,16 @@ WALL = {"quick": 1200, "thorough": 4 * 3600}
 def gen_cases(rng, tier, count=None):
     count = count or (360 if tier == "quick" else 6000)
     out = []
+    for i in range(6 if tier == "quick" else 40):
+        # long runs: phase i lasts 2^i rounds, so only long horizons reach the later phase ends (2046 .. 16382)
+        T = int(rng.integers(4100, 4300)) if i % 2 else int(rng.integers(8200, 8400))
+        if tier == "thorough" and i % 4 == 0:
+            T = int(rng.integers(16400, 16600))
+        c = gen.algo_case(rng, "Zooming", tier, part=str(rng.choice(["Bin", "K3", "RBin", "DimBin"])), fams=FAMS,
+                          early_stop=False, n=T, T=T, dim=int(rng.integers(1, 3)))
+        c["params"] = {"nu": float(rng.uniform(0.5, 3.0)), "rho": float(rng.uniform(0.5, 0.8))}
+        c["_cost"] = 30.0
+        out.append(c)
     for i in range(count):
         part = str(rng.choice(C.MIDPOINT_PARTS)) if i % 2 == 0 else str(rng.choice(C.PART_NAMES))
         c = gen.algo_case(rng, "Zooming", tier, part=part, fams=FAMS, early_stop=False,
